@@ -25,7 +25,9 @@ CONFIG = {
     "shards": {"quick": 8, "thorough": 16},
     "budget_s": {"quick": 300, "thorough": 2400},   # only reached when a hanging case is being shrunk
     "rule": ("machine: Hypothesis rule-based histories over concatenate / export_character_indices / "
-             "export_character_subset / new_character_subset / fill / fill_taxa / pack / add_ / replace_ / update_ / "
+             "export_character_subset (argument: recorded label, also in other letter case; the recorded object; a "
+             "caller-built CharacterSubset whose label is None / unused / equal exactly or up to case to a recorded label "
+             "with different indices - the indices of the object passed are exported) / new_character_subset / fill / fill_taxa / pack / add_ / replace_ / update_ / "
              "extend_sequences / extend_matrix / remove_ / discard_ / keep_sequences (+ a row assignment to keep states "
              "varied, + namespace events: remove a taxon that still has rows, add it back, new taxa, sort/reverse; rows "
              "are observed by Taxon through membership/item access/the raw store and, for member taxa, through public "
@@ -272,7 +274,8 @@ RULES = {
                       store=STORE, label=MLBL, prep=st.booleans()),
     "export_indices": fd(k=K, idx=IDX, store=STORE, label=MLBL),
     "export_subset": fd(k=K, which=st.integers(0, 5), idx=IDX, store=STORE, label=MLBL,
-                        by=st.sampled_from(["label", "label", "label", "object", "object", "fresh", "missing"])),
+                        by=st.sampled_from(["label", "label", "label_case", "object", "object", "built_none", "built_unused",
+                                            "built_same", "built_same", "built_case", "built_case", "missing"])),
     "new_subset": fd(k=K, label=st.integers(0, len(SUB_LABELS) - 1), idx=IDX),
     "fill": fd(**PAD),
     "fill_taxa": fd(k=K),
@@ -497,9 +500,9 @@ class Interp(object):
 
     def op_export_subset(self, a, d):
         s = self.slot(a["k"])
-        by = a["by"]
+        by = {"fresh": "built_unused"}.get(a["by"], a["by"])      # "fresh": spelling used by older replay files
         labels = sorted(s.subsets)
-        if by in ("label", "object") and not labels:
+        if by in ("label", "label_case", "object", "built_same", "built_case") and not labels:
             # register one first (same clauses as the new_subset rule), so that named exports are not starved
             self.op_new_subset({"k": a["k"], "label": a["which"] % len(SUB_LABELS), "idx": a["idx"]}, d)
             labels = sorted(s.subsets)
@@ -512,13 +515,31 @@ class Interp(object):
             except KeyError:
                 self.ctx.cls("export_subset:unknown_label_refused")
             return
-        if by == "fresh":
+        CS = d.datamodel.charmatrixmodel.CharacterSubset
+        if by.startswith("built_"):
+            # a CharacterSubset object made by the caller: exactly ITS indices are exported, whatever its label is
+            # (None, unused, or equal - exactly / up to case - to the label of a recorded subset with other indices)
             idx = sorted(set(a["idx"]))
-            arg = d.datamodel.charmatrixmodel.CharacterSubset(label="fresh", character_indices=list(a["idx"]))
+            if by == "built_none":
+                label = None
+            elif by == "built_unused":
+                label = "fresh"
+            else:
+                label = labels[a["which"] % len(labels)]
+                if set(idx) == set(s.subsets[label]):
+                    idx = sorted(set(idx) ^ set([0]))      # differ from the recorded subset by construction
+                if by == "built_case":
+                    label = label.swapcase()
+            arg = CS(label=label, character_indices=list(idx))
         else:
             label = labels[a["which"] % len(labels)]
             idx = sorted(s.subsets[label])
-            arg = label if by == "label" else s.m.character_subsets[label]
+            if by == "object":
+                arg = s.m.character_subsets[label]
+            elif by == "label_case":
+                arg = label.swapcase()      # the subset store is an OrderedCaselessDict
+            else:
+                arg = label
         self.ctx.cls("export_subset:by_" + by)
         res = self.call("export_character_subset", lambda: s.m.export_character_subset(arg), s.cells() + 1)
         self.check_export(s, res, idx, "export_character_subset(<%s> %r)" % (by, idx))
